@@ -11,13 +11,18 @@ All == ndJsonDeserialize(IOEnv.OBS_FILE)
 PerSubPrefix(o) == /\ Len(o.perSub.delivered) = Len(o.perSub.issued)
                    /\ \A i \in 1..Len(o.perSub.issued) : IsPrefix(o.perSub.delivered[i], o.perSub.issued[i])
 P_InOrderOnce(o) == IF o.kind = "l4" /\ o.lateListen THEN PerSubPrefix(o) ELSE IsPrefix(o.delivered, o.issued)
-P_Goal(o) == o.goal => IF o.kind = "l4" /\ o.lateListen THEN o.perSub.delivered = o.perSub.issued ELSE o.delivered = o.issued
+P_Goal(o) == o.goal => /\ IF o.kind = "l4" /\ o.lateListen THEN o.perSub.delivered = o.perSub.issued ELSE o.delivered = o.issued
+                       \* ... and each close has come back: the opener's application saw connectionLost for every subchannel it closed
+                       /\ (o.kind = "l4" => o.lostAtOpener = o.closedByOpener)
 
 \* ---- C13: o.ends maps "<id><o|a>" to [ev, peerWrote, errors]
 E(o) == DOMAIN o.ends
 Count(ev, k) == Cardinality({i \in 1..Len(ev) : ev[i][1] = k})
 DataOf(ev) == SelectSeq(ev, LAMBDA x : x[1] = "data")
-P_OpensOnce(o) == \A e \in E(o) : Count(o.ends[e].ev, "made") <= 1 /\ Count(o.ends[e].ev, "lost") <= 1
+\* ... exactly once: at most once at any time, and - once everything in flight has arrived - every subchannel opened towards a
+\* side that listens for its name has appeared there (missingOpens: those that have not)
+P_OpensOnce(o) == /\ \A e \in E(o) : Count(o.ends[e].ev, "made") <= 1 /\ Count(o.ends[e].ev, "lost") <= 1
+                  /\ (o.kind = "sub" => o.missingOpens = <<>>)
 P_NothingAfterLost(o) == \A e \in E(o) : \A i, j \in 1..Len(o.ends[e].ev) : (o.ends[e].ev[i][1] = "lost" /\ i < j) => FALSE
 P_DataInOrder(o) == \A e \in E(o) :
     LET got == [i \in 1..Len(DataOf(o.ends[e].ev)) |-> DataOf(o.ends[e].ev)[i][2]] IN IsPrefix(got, o.ends[e].peerWrote)
